@@ -153,6 +153,17 @@ CHECKS["C08"] = dict(
          "upper_conc_bounds called with dtype=object; systems with <= 5 (thorough 7) species",
     technique=Z, ref="DESIGN.md section 5 C08")
 
+CHECKS["C10"] = dict(
+    engine="Z", category="other",
+    text="bounded symbolic verification of the dimension bookkeeping only: args_dimensionality of MassAction/Arrhenius/Eyring for a "
+         "symbolic reaction order equals concentration^(1-order)/time (plus the documented temperature entries); get_derived_unit in a "
+         "registry of free positive reals equals product(base^SI exponent) for every key; get_odesys(unit_registry=such a registry) "
+         "reports parameter units (p_units) consistent with them for orders 1..3 - for ALL registries",
+    note="NOT claimed (not applicable to this technique): a reaction accepts a unit-carrying rate constant iff its dimension is right "
+         "(check_consistent_units) and registry independence of f_cb/integrate/output rescaling - these execute `quantities` arithmetic on "
+         "floats, where no symbolic value survives",
+    technique=Z, ref="DESIGN.md section 5 C10")
+
 NA = {
     "C09": "property is about float conversion factors produced inside the 'quantities' package and numpy array helpers; no symbolic "
            "value survives to_unitless (float(result)), and symbolic magnitudes alone would only re-prove linearity (DESIGN.md section 6)",
